@@ -45,17 +45,17 @@ func batches(r *vlib.Run, n int, fn func(e *env, idx int)) {
 }
 
 func runForgedAll(r *vlib.Run) {
-	batches(r, r.N(3600, 60000), func(e *env, i int) {
+	batches(r, r.N(7200, 400000), func(e *env, i int) {
 		e.runForged(genForged(r.RandN("forged", i), i, e.v))
 	})
-	batches(r, r.N(600, 8000), func(e *env, i int) {
+	batches(r, r.N(1200, 50000), func(e *env, i int) {
 		rng := r.RandN("chase", i)
 		e.runChase(genChase(rng, i), rng)
 	})
-	batches(r, r.N(800, 10000), func(e *env, i int) {
+	batches(r, r.N(1600, 60000), func(e *env, i int) {
 		e.runFailure(genFailure(r.RandN("failure", i), i, e.v))
 	})
-	n := r.N(600, 8000)
+	n := r.N(1200, 50000)
 	for start := 0; start < n; start += batchSize {
 		e := newEnv(r, variantMain) // the cut index only exists with DNSSEC on
 		for i := start; i < start+batchSize && i < n; i++ {
@@ -66,11 +66,14 @@ func runForgedAll(r *vlib.Run) {
 }
 
 func runAudiences(r *vlib.Run) {
-	rounds := r.N(60, 900)
+	rounds := r.N(150, 3000)
 	for round := 0; round < rounds; round++ {
 		v := variantAud
-		if round%5 == 4 {
+		switch round % 5 {
+		case 4:
 			v = variantMain // no prefetch: entries simply age out
+		case 2:
+			v = variantOpen // every client, the internal writer included, is ECS-eligible
 		}
 		e := newEnv(r, v)
 		e.runAudRound(genAudRound(r.RandN("aud", round), round, 120))
@@ -156,46 +159,48 @@ func main() {
 		"chase-" + rWire, "chase-" + rEngine, "chase-" + rMsg,
 		"failure-" + rWire, "failure-" + rMsg, "failure-" + rStoreGet,
 		"cut-" + rWire, "cut-" + rMsg, "cut-" + rStoreGet} {
-		r.Require("forged_probe/"+route, 40)
+		r.Require("forged_probe/"+route, 100)
 	}
 	for _, dim := range []string{"name", "type", "class", "cd", "scope", "chase-name", "chase-class", "chase-cd",
 		"failure-name", "failure-type", "failure-class", "failure-cd", "failure-scope", "cut-name", "cut-class", "cut-cd"} {
-		r.Require("forged_probe_dim/"+dim, 40)
+		r.Require("forged_probe_dim/"+dim, 80)
 	}
 	for _, sub := range []string{"letter", "hi-case", "punct-case", "label-cut", "unicode-fold", "addr-v4", "addr-v6", "bits", "family", "scoped-under-shared"} {
-		r.Require("forged_probe_sub/"+sub, 30)
+		r.Require("forged_probe_sub/"+sub, 100)
 	}
 	for _, w := range []string{"with-key", "scoped", "cache-set", "set-entry", "set-entry-scoped", "replace"} {
-		r.Require("forged_probe_writer/"+w, 40)
+		r.Require("forged_probe_writer/"+w, 300)
 	}
-	r.Require("forged_entries_filed", 3000)
-	r.Require("forged_behaved_as_miss", 3000)
-	r.Require("forged_probe_wire_born", 500)
+	r.Require("forged_entries_filed", 9000)
+	r.Require("forged_behaved_as_miss", 9000)
+	r.Require("forged_probe_wire_born", 2000)
 	// … and the same routes DO serve legitimately admitted entries
 	for _, route := range []string{rMsg, rWire, rWireTCP, rEngine, rStoreGet, rStoreLookup,
 		"wire-exact-bytes", "scoped-key", "ascii-case-variant",
 		"chase-" + rWire, "chase-" + rEngine, "chase-" + rMsg, "wire-chase-composed",
 		"failure-" + rWire, "failure-" + rMsg, "failure-" + rStoreGet, "wire-failure-bytes",
 		"cut-" + rWire, "cut-" + rMsg, "cut-" + rStoreGet, "wire-cut-bytes"} {
-		r.Require("legit_hit/"+route, 30)
+		r.Require("legit_hit/"+route, 100)
 	}
-	r.Require("key_names_checked", 50000)
-	r.Require("key_prefix_variants_checked", 20000)
-	r.Require("key_ascii_case_variants", 2000)
-	r.Require("key_distinct_name_pairs", 20000)
-	r.Require("key_distinct_pairs_nonascii_case", 300)
-	r.Require("key_names_presentation_over_pool_buffer", 100)
-	r.Require("key_malformed_names_checked", 1000)
-	r.Require("audience_probes", 4000)
-	r.Require("audience_scoped_hits_inside_scope_v4", 100)
-	r.Require("audience_scoped_hits_inside_scope_v6", 50)
-	r.Require("audience_shared_hits_by_ecs_clients", 50)
-	r.Require("audience_misses_with_foreign_entry_present", 300)
-	r.Require("audience_hits_cd1", 100)
-	r.Require("audience_refreshes", 100)
-	r.Require("audience_hits_on_refreshed_entries", 50)
-	r.Require("audience_hits_on_refreshed_entries_resp_cd_differs", 20)
-	r.Require("audience_purges", 100)
+	r.Require("key_names_checked", 90000)
+	r.Require("key_prefix_variants_checked", 30000)
+	r.Require("key_ascii_case_variants", 8000)
+	r.Require("key_distinct_name_pairs", 40000)
+	r.Require("key_distinct_pairs_nonascii_case", 3000)
+	r.Require("key_names_presentation_over_pool_buffer", 3000)
+	r.Require("key_malformed_names_checked", 3000)
+	r.Require("audience_probes", 10000)
+	r.Require("audience_scoped_hits_inside_scope_v4", 250)
+	r.Require("audience_scoped_hits_inside_scope_v6", 100)
+	r.Require("audience_shared_hits_by_ecs_clients", 700)
+	r.Require("audience_misses_with_foreign_entry_present", 1500)
+	r.Require("audience_hits_cd1", 300)
+	r.Require("audience_refreshes", 600)
+	r.Require("audience_hits_on_refreshed_entries", 250)
+	r.Require("audience_hits_on_refreshed_entries_resp_cd_differs", 120)
+	r.Require("audience_purges", 500)
+	r.Require("audience_internal_refresh_queries", 100) // prefetch-driven refreshes really ran
+	r.Require("contract_checked", 30000)
 
 	r.Assume("the answer cache's exported pre-keyed writers (SetFromResponseWithKey/Scoped, Cache.Set, SetEntryWithKey, ReplaceIfCurrent) and, for the failure cache and the cut wire index, the c03 hooks (record an identity under another identity's hash) stand in for a real 64-bit key collision")
 	r.Assume("ReplaceIfCurrent's contract is that the replacement takes over the slot's CD partition and ECS scope: forged writes through it differ from the slot in name/type/class only")
